@@ -8,7 +8,6 @@ package explore
 import (
 	"fmt"
 	"hash/fnv"
-	"sync/atomic"
 )
 
 type Kind uint8
@@ -90,7 +89,9 @@ func (e NondetError) Error() string { return "HARNESS-NONDETERMINISM: " + e.Msg 
 
 // Heartbeat counts explorer activity; a watchdog that sees it stand still knows that the
 // execution is blocked inside code the scheduler does not control.
-var Heartbeat atomic.Int64
+// (a plain counter on purpose: an atomic here would order every pair of scheduler steps for
+// the race detector and hide the races of the program under test)
+var Heartbeat int64
 
 // Choose asks for an answer in [0,n).  Alternative i>0 costs 1 deviation of kind.
 func (x *Exec) Choose(kind Kind, n int) int { return x.ChooseCost(kind, n, nil) }
@@ -101,7 +102,7 @@ func (x *Exec) ChooseCost(kind Kind, n int, costs []int) int {
 		panic(fmt.Sprintf("explore: Choose(%s,%d)", KindNames[kind], n))
 	}
 	x.Steps++
-	Heartbeat.Add(1)
+	Heartbeat++
 	if n == 1 && (costs == nil || costs[0] == 0) {
 		return 0
 	}
